@@ -176,3 +176,40 @@ Theorem C01_source_difference_fetch_is_model : forall env s subs a b rv fuel,
   g_diff_fetch fuel (fetch env s) subs (fetch env) a b rv = RDone (fetch env (Diff s subs) a b rv).
 Proof. exact g_diff_fetch_is_model. Qed.
 Print Assumptions C01_source_difference_fetch_is_model.
+
+(* ---- tie C (third extension, "small"): the constructors and operators that BUILD the expressions, the
+   Interval class and the module constants, as the code has them (Gen/Source.v is regenerated from the
+   source text on every run; Proofs/GenEq_small_core.v).  The constructor a method calls is instantiated
+   with the generated __init__ of that class. ---- *)
+From CG Require Import Proofs.GenEq_small_core.
+
+(* SECOND .. YEAR of util.py, NEG_INF / POS_INF of interval.py *)
+Example C01_source_constants : _ := g_consts_eq.
+Print Assumptions C01_source_constants.
+(* Interval.__post_init__ accepts exactly the intervals whose finite bounds are ordered *)
+Example C01_source_interval_validation_is_model : _ := g_interval_post_init_eq.
+Print Assumptions C01_source_interval_validation_is_model.
+Example C01_source_interval_validation : _ := g_interval_post_init_ok.
+Print Assumptions C01_source_interval_validation.
+Example C01_source_interval_duration_is_model : _ := g_interval_duration_eq.
+Print Assumptions C01_source_interval_duration_is_model.
+Example C01_source_from_datetimes_is_model : _ := g_interval_from_datetimes_eq.
+Print Assumptions C01_source_from_datetimes_is_model.
+(* _flatten_sources, Union(a, b) = or_ a b, Intersection(a, b) = and_ a b *)
+Example C01_source_flatten_sources_is_model : _ := g_flatten_sources_eq.
+Print Assumptions C01_source_flatten_sources_is_model.
+Example C01_source_union_ctor_is_or : _ := g_union_init_is_or.
+Print Assumptions C01_source_union_ctor_is_or.
+Example C01_source_intersection_ctor_is_and : _ := g_intersection_init_is_and.
+Print Assumptions C01_source_intersection_ctor_is_and.
+(* a | b, a & b, a - b, ~a, flatten(a) build the model's expressions *)
+Example C01_source_or_is_model : _ := g_tl_or_eq.
+Print Assumptions C01_source_or_is_model.
+Example C01_source_and_is_model : _ := g_tl_and_eq.
+Print Assumptions C01_source_and_is_model.
+Example C01_source_sub_is_model : _ := g_tl_sub_eq.
+Print Assumptions C01_source_sub_is_model.
+Example C01_source_invert_is_model : _ := g_tl_invert_eq.
+Print Assumptions C01_source_invert_is_model.
+Example C01_source_flatten_is_model : _ := g_flatten_eq.
+Print Assumptions C01_source_flatten_is_model.
